@@ -205,6 +205,9 @@ def cone_runs(ctx, cvxopt, kinds, n_inst, max_variants, prop, judge_exceptions=F
             if kind == 'optimal' and rng.random() < 0.7:
                 t = rng.choice([1e-4, 1e-3])
                 pr.c = [a * t for a in pr.c]; pr.wit['z'] = [a * t for a in pr.wit['z']]; pr.wit['y'] = [a * t for a in pr.wit['y']]
+        elif i % 5 == 2 and kind == 'optimal':
+            # inequalities in opposite pairs and ball constraints (G'e = 0): boxes, norm balls, two-sided LMIs
+            pr = PR.planted_twosided(rng)
         elif i % 5 == 4:
             # semidefinite programs without equality constraints, two or three 's' blocks: the shape the external solver DSDP accepts
             dims = {'l': rng.randint(0, 2), 'q': [], 's': [rng.randint(1, 3) for _ in range(rng.randint(2, 3))]}
